@@ -157,6 +157,39 @@ def sources(rng, tier):
     return srcs
 
 
+
+def _import_job(job):
+    """compile main.less that imports a file holding `src` (shape 0: directly, 1: through a second file in a sub-directory, 2: inside a rule)"""
+    src, shape = job
+    C.use_repo()
+    import lesscpy
+    import shutil
+    import signal
+    d = tempfile.mkdtemp(prefix='verif_c15i_')
+    old = signal.signal(signal.SIGALRM, C._alarm)
+    signal.setitimer(signal.ITIMER_REAL, 60)
+    try:
+        os.mkdir(os.path.join(d, 'sub'))
+        with open(os.path.join(d, 'sub', 'broken.less'), 'w') as f:
+            f.write(src)
+        with open(os.path.join(d, 'mid.less'), 'w') as f:
+            f.write('.mid{top:0}\n@import "sub/broken";\n')
+        with open(os.path.join(d, 'main.less'), 'w') as f:
+            f.write(['.pre{left:0}\n@import "sub/broken.less";\n.post{right:0}\n', '@import "mid";\n.post{right:0}\n',
+                     '.wrap{@import "sub/broken";}\n.post{right:0}\n'][shape])
+        try:
+            with open(os.path.join(d, 'main.less')) as fh:
+                return ('ok', lesscpy.compile(fh, minify=True))
+        except C.HarnessTimeout:
+            return ('timeout', 60, '', ['HarnessTimeout'])
+        except BaseException as e:  # noqa
+            return ('err', type(e).__name__, str(e)[:300], [c.__name__ for c in type(e).__mro__])
+    finally:
+        signal.setitimer(signal.ITIMER_REAL, 0)
+        signal.signal(signal.SIGALRM, old)
+        shutil.rmtree(d, ignore_errors=True)
+
+
 UNDEF_SITES = [
     '.a{top:@zz}', '.a{top:1px + @zz}', '.a{top:f(@zz)}', '.a-@{zz}{top:0}', '.a{.b-@{zz}{top:0}}', '.a{content:"x@{zz}y"}', '.a{content:~"x@{zz}y"}',
     '@media (min-width: @zz){.r{top:0}}', '@media screen and (min-width: @zz){.r{top:0}}', '.a{@media (min-width: @zz){top:0}}',
@@ -174,7 +207,16 @@ def run(tier):
     build = C.lean_build(PROP)
     audit = open(os.path.join(C.LEAN, 'Lessm', 'Audit', 'C15.lean')).read()
     theorems = re.findall(r'#print axioms (\S+)', audit)
-    missing = chk.set_proof(build, theorems, 'cd lean && lake build Lessm.Props.C15 Lessm.Audit.C15 && lake env lean Lessm/Audit/C15.lean')
+    # second proof module: the verdict on TEXT (front end model composed with the LR driver and the balance theorems)
+    b2 = C.lean_build('C15Text', theorems_module='Lessm.Props.C15Text', extract=False)
+    build.ok = build.ok and b2.ok
+    build.log += '\n' + b2.log
+    build.axioms.update(b2.axioms)
+    build.failed_modules += b2.failed_modules
+    build.audit_problems += b2.audit_problems
+    theorems += re.findall(r'#print axioms (\S+)', open(os.path.join(C.LEAN, 'Lessm', 'Audit', 'C15Text.lean')).read())
+    missing = chk.set_proof(build, theorems, 'cd lean && lake build Lessm.Props.C15 Lessm.Audit.C15 Lessm.Props.C15Text Lessm.Audit.C15Text && '
+                            'lake env lean Lessm/Audit/C15.lean && lake env lean Lessm/Audit/C15Text.lean')
     chk.cov['trusted_base'] = C.TRUSTED_BASE
     chk.cov['rule'] = ('programs of the generators of C02 C03 C05 C07 C19 + a string/comment sample; every corruption class applied at up to '
                        '%s positions per program. distinct by corrupted text; non-trivial = every corruption (the uncorrupted programs are '
@@ -271,6 +313,23 @@ def run(tier):
                     disagreements.append((src[:300], m + ' (end of input)', first))
         else:
             disagreements.append((src[:300], m, first))
+    # ---- the same corruptions inside an IMPORTED file (direct, nested, inside a rule): the library call on the importing file must raise
+    import_sample = [c for c, r in zip(cases, res) if c[0] != 'control' and r[0] == 'err']
+    import_sample = rng.sample(import_sample, min(len(import_sample), 30 if tier == 'quick' else 300))
+    ires = C.pool().map(_import_job, [(src, k % 3) for k, (_kind, src) in enumerate(import_sample)], chunksize=2)
+    stats['imported_corruptions'] = len(import_sample)
+    for k, ((kind, src), r) in enumerate(zip(import_sample, ires)):
+        chk.count(('import', k % 3, src), nontrivial=True)
+        if r[0] == 'ok':
+            chk.violation({'kind': 'silent-import', 'class': kind, 'shape': ['direct', 'nested', 'in-rule'][k % 3], 'source': src,
+                           'expected': 'CompilationError or SyntaxError: the corrupted text is in an imported file', 'actual': r[1][:300]})
+            if len(chk.violations) > 5:
+                break
+        elif not (r[0] == 'err' and 'SyntaxError' in r[3]):
+            chk.violation({'kind': 'wrong-exception', 'class': kind, 'shape': ['direct', 'nested', 'in-rule'][k % 3], 'source': src,
+                           'expected': 'CompilationError or SyntaxError', 'actual': list(r[:3])})
+            if len(chk.violations) > 5:
+                break
     # ---- the command line prints a diagnostic
     tmpd = tempfile.mkdtemp(prefix='verif_c15_')
     try:
